@@ -81,6 +81,8 @@ def r04_1(run, model):
 
 
 def r04_2(run, model, an):
+    if an is None:
+        raise AnalysisIncomplete("R04.2 needs the analyser built by R04.1")
     run.rule("R04.2", "FIRST-set agreement: under each FIRST-set guard the guarded grammar function must consume a token on every path "
                       "(EXPR_FIRST -> expr, PATTERN_FIRST -> pattern, TYPE_FIRST -> type_expr): a token in the set without an arm would "
                       "be a non-advancing path or an unreachable!()")
@@ -180,12 +182,12 @@ def r04_5(run, model, mir):
 
 def run(run, model):
     mir = Mir(run.facts)
-    an = r04_1(run, model)
-    r04_2(run, model, an)
-    r04_3(run, model)
-    r04_4(run, model, mir)
-    r04_5(run, model, mir)
+    an = run.try_rule(r04_1, model)
+    run.try_rule(r04_2, model, an)
+    run.try_rule(r04_3, model)
+    run.try_rule(r04_4, model, mir)
+    run.try_rule(r04_5, model, mir)
     run.rule("R04.6", "no cyclic type can be built: shared with C03 R03.2 (occurs before binding; occurs handles every type former)")
-    c03.r03_2(run, model)
+    run.try_rule(c03.r03_2, model)
     run.assume("Parser::expect consumes an unexpected token unless it is in the recovery set; the analysis treats a failed expect as possibly non-advancing")
     run.assume("recursive grammar calls are summarised pessimistically while in progress; loops nested in a summarised function are treated as zero-or-more iterations")
